@@ -274,7 +274,7 @@ PROPS["C06"] = dict(
     assumptions=["agreement with the reference runtime on every legal encoding is not judged here (input space; see C08 for the accept/accept comparison on damaged inputs)"],
     tests=[dict(name="TestC06Hist", pkg="c06", race=False, mem_gb=4,
                 quick=dict(workers=16, checks=8000, steps=1, watchdog_s=900),
-                thorough=dict(workers=16, checks=3000000, steps=1, watchdog_s=7200))],
+                thorough=dict(workers=16, checks=1500000, steps=1, watchdog_s=7200))],
 )
 
 PROPS["C20"] = dict(
